@@ -109,3 +109,6 @@ props/C12.vos props/C12.vok props/C12.required_vos: props/C12.v lib/Lib.vos lib/
 props/C13.vo props/C13.glob props/C13.v.beautified props/C13.required_vo: props/C13.v lib/Lib.vo lib/RLib.vo lib/Trig.vo gen/Compute.vo gen/Tables.vo proofs/C13_range.vo proofs/C13_causal.vo proofs/C13_par.vo proofs/C13_sign.vo
 props/C13.vio: props/C13.v lib/Lib.vio lib/RLib.vio lib/Trig.vio gen/Compute.vio gen/Tables.vio proofs/C13_range.vio proofs/C13_causal.vio proofs/C13_par.vio proofs/C13_sign.vio
 props/C13.vos props/C13.vok props/C13.required_vos: props/C13.v lib/Lib.vos lib/RLib.vos lib/Trig.vos gen/Compute.vos gen/Tables.vos proofs/C13_range.vos proofs/C13_causal.vos proofs/C13_par.vos proofs/C13_sign.vos
+props/C14.vo props/C14.glob props/C14.v.beautified props/C14.required_vo: props/C14.v model/ObjModel.vo gen/ObjNames.vo gen/ObjApi.vo model/ObjChecks.vo
+props/C14.vio: props/C14.v model/ObjModel.vio gen/ObjNames.vio gen/ObjApi.vio model/ObjChecks.vio
+props/C14.vos props/C14.vok props/C14.required_vos: props/C14.v model/ObjModel.vos gen/ObjNames.vos gen/ObjApi.vos model/ObjChecks.vos
